@@ -336,3 +336,24 @@ PROPS.update({
                     'detector (a report is the failing schedule).',
     ),
 })
+PROPS.update({
+    'C11': dict(
+        domains=[dict(name='reg', quick=12000, thorough=300000)],
+        verdicts=['c11_*'],
+        project={'reg': proj_allow},
+        prop_files=['props/C11.v'],
+        trivial_classes=(),
+        rule='histories of 1-40 operations (Add / Remove of 2-5 services whose roots are drawn from a pool sharing fixed prefixes, '
+             'differing by a trailing slash or by a variable, with and without "/"; Route / RemoveRoute with dynamic routes on; '
+             'Handle of plain handlers) followed by 30-70 probe requests (every root, root + "/", paths below, near-misses, the '
+             'plain patterns and paths below them) through ServeHTTP or Dispatch, answered by the history-built container and by a '
+             'container freshly built from the final content; both routers; distinct = distinct case text; every case non-trivial',
+        trusted_base=['net/http ServeMux is modelled (pre-1.22 semantics selected by the go directive: exact pattern, longest '
+                      '"/"-terminated prefix, p -> p/ redirect, clean-path redirect, panic on duplicate pattern); regexp oracles'],
+        assumptions=['premises of the theorem: a root is never added while registered; plain patterns are registered once and do '
+                     'not collide with a pattern a service of the history registers (else net/http panics: user error)'],
+        explanation='Theorems Props.C11 / C11_adds / C11_mux_order on the Coq model of Add / addHandler / Remove / Handle / Route / '
+                    'RemoveRoute and the ServeMux; history-built vs fresh-built answers of the implementation compared with each '
+                    'other and with the model (status, handler identity, Location).',
+    ),
+})
